@@ -517,10 +517,12 @@ def main(pid, argv=None):
         somersault_decode(ck)
         unmodelled_composites_decode(ck)
         snoop_sequences(ck)
+        ratfunc_pole_probe(ck, pid)
     if pid == "C03" and (not ck.replay or doc_level):
         real_valued_reencode(ck)
     if pid == "C04" and (not ck.replay or doc_level):
         condensed_encode_probe(ck)
+        ratfunc_pole_probe(ck, pid)
     if pid == "C17" and (not ck.replay or doc_level):
         cli_mode_restore(ck)
         cli_mode_during(ck)
@@ -1226,6 +1228,72 @@ def real_valued_reencode(ck):
                              {"document": "harness/codec_checks.py REAL_DOPS", "request": f"rq_{name}", "msg": pdu.hex()})
                 break
     ck.coverage["real_valued_pdus"] = n
+
+
+
+def _ratfunc(cat, num, den, inv_num, inv_den):
+    def sc(n, d):
+        return ("<COMPU-SCALE><COMPU-RATIONAL-COEFFS><COMPU-NUMERATOR>" + "".join(f"<V>{x}</V>" for x in n) + "</COMPU-NUMERATOR>"
+                "<COMPU-DENOMINATOR>" + "".join(f"<V>{x}</V>" for x in d) + "</COMPU-DENOMINATOR></COMPU-RATIONAL-COEFFS></COMPU-SCALE>")
+    return (f"<COMPU-METHOD><CATEGORY>{cat}</CATEGORY><COMPU-INTERNAL-TO-PHYS><COMPU-SCALES>{sc(num, den)}</COMPU-SCALES>"
+            f"</COMPU-INTERNAL-TO-PHYS><COMPU-PHYS-TO-INTERNAL><COMPU-SCALES>{sc(inv_num, inv_den)}</COMPU-SCALES>"
+            "</COMPU-PHYS-TO-INTERNAL></COMPU-METHOD>")
+
+
+def ratfunc_pole_probe(ck, pid):
+    """C04 / C05 (oracle only; rational functions are outside the codec model): data objects whose RAT-FUNC /
+    SCALE-RAT-FUNC conversion has a pole inside the coded range -- p = 1000 / (x - 5), inverse x = (1000 + 5 p) / p --
+    and one whose denominator polynomial has two roots. Every PDU decodes to a value or a DecodeError; every physical
+    value is rejected with the library's error class or gives a PDU"""
+    import hier_common as hc
+    from odxtools.exceptions import DecodeError, OdxError
+    specs = [("rat", "RAT-FUNC", [1000], [-5, 1], [1000, 5], [0, 1]),
+             ("srat", "SCALE-RAT-FUNC", [1000], [-5, 1], [1000, 5], [0, 1]),
+             ("rat2", "RAT-FUNC", [1, 1], [12, -7, 1], [0, 1], [-2, 0, 1])]
+    dops = "".join(_real_dop(n, 8, _ratfunc(cat, a, b, c, d)) for n, cat, a, b, c, d in specs)
+    reqs = "".join(
+        f'<REQUEST ID="rq_{n}"><SHORT-NAME>rq_{n}</SHORT-NAME><PARAMS><PARAM xsi:type="CODED-CONST"><SHORT-NAME>sid</SHORT-NAME>'
+        f'<BYTE-POSITION>0</BYTE-POSITION><CODED-VALUE>{0x50 + i}</CODED-VALUE><DIAG-CODED-TYPE BASE-DATA-TYPE="A_UINT32" '
+        'xsi:type="STANDARD-LENGTH-TYPE"><BIT-LENGTH>8</BIT-LENGTH></DIAG-CODED-TYPE></PARAM>'
+        f'<PARAM xsi:type="VALUE"><SHORT-NAME>v</SHORT-NAME><BYTE-POSITION>1</BYTE-POSITION><DOP-REF ID-REF="{n}"/></PARAM></PARAMS></REQUEST>'
+        for i, (n, *_r) in enumerate(specs))
+    doc = ('<?xml version="1.0" encoding="UTF-8"?><ODX MODEL-VERSION="2.2.0" xmlns:xsi="http://www.w3.org/2001/XMLSchema-instance">'
+           '<DIAG-LAYER-CONTAINER ID="DLC"><SHORT-NAME>DLC</SHORT-NAME><BASE-VARIANTS><BASE-VARIANT ID="BV"><SHORT-NAME>BV</SHORT-NAME>'
+           f'<DIAG-DATA-DICTIONARY-SPEC><DATA-OBJECT-PROPS>{dops}</DATA-OBJECT-PROPS></DIAG-DATA-DICTIONARY-SPEC>'
+           f'<REQUESTS>{reqs}</REQUESTS></BASE-VARIANT></BASE-VARIANTS></DIAG-LAYER-CONTAINER></ODX>')
+    try:
+        db = hc.load_docs([doc])
+    except Exception as e:  # noqa
+        ck.note_broken(f"cannot load the document of rational functions: {type(e).__name__}: {e}")
+        return
+    layer = db.diag_layers[0]
+    raw = layer.diag_layer_raw
+    n = 0
+    for i, (name, *_r) in enumerate(specs):
+        rq = [r for r in raw.requests if r.short_name == f"rq_{name}"][0]
+        if pid == "C05":
+            for x in range(256):
+                pdu = bytes([0x50 + i, x])
+                n += 1
+                ck.count(("ratfunc-dec", name, x))
+                for what, fn in (("request.decode", lambda: rq.decode(pdu)), ("layer.decode", lambda: layer.decode(pdu))):
+                    _r2, e, _ = cc.guarded(fn, timeout=3)
+                    if e is not None and not isinstance(e, DecodeError):
+                        w = "does not terminate" if isinstance(e, cc.Hang) else f"raised {type(e).__name__}: {e}"
+                        ck.violation(f"{what} of {pdu.hex()} (rq_{name}: rational function with a pole) {w}",
+                                     {"document": "harness/codec_checks.py ratfunc_pole_probe", "request": f"rq_{name}", "msg": pdu.hex()})
+                        return
+        else:
+            for pv in (0, 0.0, -0.0, 1, -200, 1000, 1e308, -1e308, 5e-324, 2.0 ** 0.5, -(2.0 ** 0.5), float("inf"), float("nan"), 10 ** 400):
+                n += 1
+                ck.count(("ratfunc-enc", name, repr(pv)))
+                r, e, _ = cc.guarded(lambda: bytes(rq.encode(v=pv)), timeout=3)
+                if e is not None and not isinstance(e, OdxError):
+                    w = "does not terminate" if isinstance(e, cc.Hang) else f"raised {type(e).__name__}: {e}"
+                    ck.violation(f"rq_{name}.encode(v={pv!r}) (rational function with a pole) {w}",
+                                 {"document": "harness/codec_checks.py ratfunc_pole_probe", "request": f"rq_{name}", "value": repr(pv)})
+                    return
+    ck.coverage["ratfunc_pole_cases"] = n
 
 
 def condensed_flag_reencode(ck):
